@@ -291,6 +291,16 @@ package tchannel
 //@   nosafety
 //@   property C13
 
+// Without a deadline on the caller's context the dial gets the documented
+// default of five seconds; with one, the time left is measured against that
+// very deadline.
+//@ func getTimeout(ctx context.Context) (d time.Duration)
+//@   requires ctx != nil
+//@   label no-deadline-means-the-default-connect-timeout
+//@   ensures !hasdl(ctx) ==> d == 5000000000
+//@   label time-left-is-measured-against-the-callers-deadline
+//@   atcall Sub hasdl(ctx) && nanos(arg0) == dl(ctx)
+//@   property C13 C05
 //@ func (ch *Channel) inboundHandshake(ctx context.Context, c net.Conn, events connectionEvents) (conn *Connection, err error)
 //@   requires ctx != nil && c != nil && ch.log != nil && ch.connectionOptions.FramePool != nil
 //@   modifies all
@@ -365,6 +375,16 @@ package tchannel
 //@ func (ch *Channel) outboundHandshake(ctx context.Context, c net.Conn, outboundHP string, events connectionEvents) (conn *Connection, err error)
 //@   label socket-deadline-is-the-callers-deadline
 //@   atcall SetDeadline (arg1.wall == 0 && arg1.ext == 0) || (hasdl(ctx) ==> nanos(arg1) == dl(ctx))
+//@   property C13 C05
+// Without a deadline on the caller's context the dial gets the documented
+// default of five seconds; with one, the time left is measured against that
+// very deadline.
+//@ func getTimeout(ctx context.Context) (d time.Duration)
+//@   requires ctx != nil
+//@   label no-deadline-means-the-default-connect-timeout
+//@   ensures !hasdl(ctx) ==> d == 5000000000
+//@   label time-left-is-measured-against-the-callers-deadline
+//@   atcall Sub hasdl(ctx) && nanos(arg0) == dl(ctx)
 //@   property C13 C05
 //@ func (ch *Channel) inboundHandshake(ctx context.Context, c net.Conn, events connectionEvents) (conn *Connection, err error)
 //@   label socket-deadline-is-the-callers-deadline
